@@ -103,6 +103,21 @@ func (hs *ChainedHotStuff) VoteRule(_ hotstuff.View, proposal hotstuff.ProposeMs
 		}
 	}
 
+	// A vote for the block tells the others that this replica has locked the head of the block's two-chain.
+	// CommitRule can only do that if the certified block and the block certified by it are at hand; if they
+	// cannot be had (unknown here and not fetchable right now), voting would be voting without locking.
+	if safe {
+		if !haveQCBlock {
+			return false
+		}
+		if h := qcBlock.QuorumCert().BlockHash(); h != (hotstuff.Hash{}) {
+			if _, ok := hs.blockchain.Get(h); !ok {
+				hs.logger.Debug("VoteRule: cannot lock, missing block: ", h.SmallString())
+				return false
+			}
+		}
+	}
+
 	return safe
 }
 
